@@ -9,16 +9,6 @@ open Molli.Model.Ukv Molli.Model.Sessions
 
 /-! ### a session writes only to a file it opened itself -/
 
-/-- `opensFirst o prog`: running `prog` from a state in which the session's file is open iff `o`, every
-`writeBegin`/`writeEnd` happens while the file is open. -/
-def opensFirst : Bool → List Act → Bool
-  | _, [] => true
-  | _, .openFile :: t => opensFirst true t
-  | _, .closeFile :: t => opensFirst false t
-  | o, .writeBegin :: t => o && opensFirst o t
-  | o, .writeEnd :: t => o && opensFirst o t
-  | o, _ :: t => opensFirst o t
-
 /-- is the file open after `prog` ran? -/
 def openAfter : Bool → List Act → Bool
   | o, [] => o
@@ -151,9 +141,10 @@ structure KInv (k : KSys) : Prop where
   opens : ∀ i, i < k.s.n → opensFirst (k.s.sess i).fileOpen (k.s.sess i).prog = true
   /-- a session that has not started yet has no file open -/
   fresh : ∀ i, i < k.s.n → (k.s.sess i).inCS = false → (k.s.sess i).prog ≠ [] → (k.s.sess i).fileOpen = false
-  /-- while a dead torn tail exists, no writer has the library open (it would have cut the tail when it opened) -/
+  /-- while a dead torn tail exists, no writer inside its critical section writes again before the library has been
+  opened anew (which cuts the tail) -/
   dead : k.deadTail = true → ∀ i, i < k.s.n → (k.s.sess i).inCS = true → (k.s.sess i).writer = true →
-           (k.s.sess i).fileOpen = false
+           opensFirst false (k.s.sess i).prog = true
   /-- whatever a session has read so far is a prefix of the library: complete records, in file order -/
   seen : ∀ i, i < k.s.n → ∀ l ∈ (k.s.sess i).seen, l <+: k.s.file
 
@@ -229,14 +220,15 @@ theorem kinv_run (k : KSys) (i : Nat) (hk : KInv k) : KInv (ktick k (.run i)) :=
         cases ho : opensForAppend k.s i <;> simp_all
       by_cases hji : j = i
       · subst hji
-        rw [hcs] at hc; rw [hwr] at hw; rw [hfo]
+        rw [hcs] at hc; rw [hwr] at hw; rw [hprog]
         cases a with
         | acquire w =>
           have hpre := (phase_acquire hph hp).1
-          simp only [fileOpenAfter]
-          exact hk.fresh j hj hpre (by rw [hp]; simp)
+          have hfo0 := hk.fresh j hj hpre (by rw [hp]; simp)
+          have := hk.opens j hj
+          rw [hp, hfo0] at this
+          simpa [opensFirst] using this
         | release => simp [inCSAfter] at hc
-        | closeFile => rfl
         | openFile =>
           exfalso
           have : opensForAppend k.s j = true := by
@@ -244,8 +236,10 @@ theorem kinv_run (k : KSys) (i : Nat) (hk : KInv k) : KInv (ktick k (.run i)) :=
             simp [opensForAppend, hj, he, hw, hp]
           rw [this] at hd'; exact absurd hd'.1 (by simp)
         | _ =>
-          simp only [inCSAfter, writerAfter, fileOpenAfter] at hc hw ⊢
-          exact hk.dead hd'.2 j hj hc hw
+          simp only [inCSAfter, writerAfter] at hc hw
+          have := hk.dead hd'.2 j hj hc hw
+          rw [hp] at this
+          simpa [opensFirst] using this
       · rw [hoth j hji] at hc hw ⊢; exact hk.dead hd'.2 j hj hc hw
     · intro j hj l hl
       rw [hn] at hj
@@ -330,9 +324,26 @@ theorem kinv_kill (k : KSys) (i : Nat) (hk : KInv k) : KInv (ktick k (.kill i)) 
       · rw [setSess_other _ _ _ _ hji] at hl; exact hk.seen j hj l hl
   · rw [if_neg hc]; exact hk
 
+/-- **Invariant step (tear)**: a write that fails in the middle of a record leaves a torn tail; the invariant survives
+because the session that failed does not write again before the library is opened anew, and nobody else is inside. -/
+theorem kinv_tear (k : KSys) (i : Nat) (hk : KInv k) : KInv (ktick k (.tear i)) := by
+  simp only [ktick]
+  by_cases hc : canTear k.s i = true
+  · rw [if_pos hc]
+    simp only [canTear, Bool.and_eq_true, decide_eq_true_eq] at hc
+    obtain ⟨⟨⟨hi, hci⟩, hwi⟩, hoi⟩ := hc
+    refine ⟨hk.sinv, hk.opens, hk.fresh, ?_, hk.seen⟩
+    intro _ j hj hcj hwj
+    by_cases hji : j = i
+    · subst hji; exact hoi
+    · have := (hk.sinv.excl i j hi hj (Ne.symm hji) hci hcj).1
+      rw [hwi] at this; cases this
+  · rw [if_neg hc]; exact hk
+
 theorem kinv_step (k : KSys) (e : Ev) (hk : KInv k) : KInv (ktick k e) := by
   cases e with
   | run i => exact kinv_run k i hk
   | kill i => exact kinv_kill k i hk
+  | tear i => exact kinv_tear k i hk
 
 end Molli.Lemmas.Sessions
